@@ -475,3 +475,26 @@ mod tests {
         assert_eq!(GenericPurl::<String>::from_str("pkg:type/name").unwrap(), deserialized,);
     }
 }
+
+/// Verification hooks: thin public wrappers over private functions. No behavior of their own.
+#[cfg(feature = "verif")]
+#[doc(hidden)]
+pub mod verif_parse {
+    use super::*;
+
+    pub fn decode(input: &str) -> Result<Cow<str>, ParseError> {
+        super::decode(input)
+    }
+
+    pub fn decode_subpath(subpath: &str) -> Result<SmallString, ParseError> {
+        super::decode_subpath(subpath)
+    }
+
+    pub fn decode_namespace(namespace: &str) -> Result<SmallString, ParseError> {
+        super::decode_namespace(namespace)
+    }
+
+    pub fn decode_qualifiers(s: &str, parts: &mut PurlParts) -> Result<(), ParseError> {
+        super::decode_qualifiers(s, parts)
+    }
+}
